@@ -111,7 +111,7 @@ def isBlockOrTx (m : Bytes) : Bool := m == asciiBytes "block" || m == asciiBytes
 
 /-- `Reject`: the 32 data bytes are present exactly when the message is "block" or "tx" -/
 def rejectC : Codec Reject :=
-  iso (dpair varStr fun m => u8 ⊗ varStr ⊗ bytesN (if isBlockOrTx m then 32 else 0))
+  iso (dpair varStr fun m => u8 ⊗ varStr ⊗ vecBytes (if isBlockOrTx m then 32 else 0))
     (fun p => ⟨p.1, p.2.1, p.2.2.1, p.2.2.2⟩) (fun r => (r.message, r.code, r.reason, r.data))
 
 /-- `Protoconf`: stream policies are present exactly when `version > 1` -/
@@ -138,7 +138,7 @@ def prefilledC : Codec PrefilledTx :=
   iso (varint ⊗ txC) (fun p => ⟨p.1, p.2⟩) (fun t => (t.index, t.tx))
 
 def cmpctblockC : Codec Cmpctblock :=
-  iso (blockHeaderC ⊗ u64 ⊗ listTry (vecBytes SHORT_TX_ID_LEN) ⊗ listTry prefilledC)
+  iso (blockHeaderC ⊗ u64 ⊗ listTry (bytesN SHORT_TX_ID_LEN) ⊗ listTry prefilledC)
     (fun p => ⟨p.1, p.2.1, p.2.2.1, p.2.2.2⟩)
     (fun c => (c.header, c.nonce, c.shortids, c.prefilledtxn))
 
@@ -202,20 +202,22 @@ def streamValidate (streamType : Nat) (assoc : Bytes) : Outcome Unit :=
 def createstrmValidate (c : Createstrm) : Outcome Unit := streamValidate c.streamType c.associationId
 def streamackValidate (c : Streamack) : Outcome Unit := streamValidate c.streamType c.associationId
 
-/-- the `total_out += tx_out.satoshis` loop of `PrefilledTransaction::validate` (i64, checked
-    arithmetic in the dev profile: overflow is a panic) -/
+/-- the output loop of `PrefilledTransaction::validate`: every amount must lie in
+    `0 ..= MAX_SATOSHIS` and so must the running total, both checked inside the loop — so the `i64`
+    addition never overflows (both operands are at most `MAX_SATOSHIS`). -/
 def sumOutputs : List TxOut → Int → Outcome Int
   | [], acc => .ok acc
   | o :: os, acc =>
     if o.satoshis < 0 then .err "BadData"
+    else if o.satoshis > (Generated.MAX_SATOSHIS : Int) then .err "BadData"
     else if acc + o.satoshis > I64_MAX then .panic "cmpctblock.rs:total_out += tx_out.satoshis"
+    else if acc + o.satoshis > (Generated.MAX_SATOSHIS : Int) then .err "BadData"
     else sumOutputs os (acc + o.satoshis)
 
 def prefilledValidate (p : PrefilledTx) : Outcome Unit :=
   if p.tx.inputs.isEmpty then badData
   else if p.tx.outputs.isEmpty then badData
-  else (sumOutputs p.tx.outputs 0).bind fun total =>
-    if total > (Generated.MAX_SATOSHIS : Int) then badData else .ok ()
+  else (sumOutputs p.tx.outputs 0).bind fun _ => .ok ()
 
 def allValidate {α} (v : α → Outcome Unit) : List α → Outcome Unit
   | [] => .ok ()
